@@ -131,7 +131,7 @@ def run(ctx):
     static_ok = vlib.static_obligations(ctx)
     struct_ok = structure_obligation(ctx)
     binp = vlib.go_build(ctx, "./cmd/c14")
-    ngen, maxn = (600, 20) if ctx.quick() else (3000, 50)
+    ngen, maxn = (600, 20) if ctx.quick() else (8000, 50)
     cases = [dict(c, id=i) for i, c in enumerate(load_corpus())]
     if ctx.replay:
         r = json.load(open(ctx.replay))
